@@ -12,7 +12,7 @@ R = "ppci/irutils/reader.py"
 IR = "ppci/ir.py"
 NOT_IN_BLOCKS = {
     "Instruction": "abstract", "LocalValue": "abstract", "FinalInstruction": "abstract", "JumpBase": "abstract",
-    "Parameter": "printed with the function header", "Undefined": "placeholder; never in a well-formed module",
+    "Parameter": "printed with the function header",
     "JumpTable": "constructor raises NotImplementedError",
 }
 DERIVED_FIELDS = {"targets": "successor list rebuilt by the constructor", "inputs": "phi inputs printed through the loop over .inputs"}
@@ -96,8 +96,9 @@ def run(ctx):
     rd = ctx.cls(R, "Reader")
     base = ctx.cls(IR, "Instruction")
     built = {}
+    PLACEHOLDER_SITES = {"find_value"}     # creates ir.Undefined stand-ins for forward references: not a parse of a printed `undefined`
     for m in rd.body:
-        if isinstance(m, ast.FunctionDef):
+        if isinstance(m, ast.FunctionDef) and m.name not in PLACEHOLDER_SITES:
             for c in calls_in(m):
                 cn = call_name(c) or ""
                 if cn.startswith("ir."):
@@ -107,6 +108,20 @@ def run(ctx):
             continue
         ctx.saw("classes", "%s:%s" % (IR, c.name))
         ctx.ob("C15.R1", R + ":Reader", "ir.%s (printed by the writer) is constructed somewhere in the reader" % c.name, c.name in built, construct="class:" + c.name)
+    # a value is printed as `<type> <name> = ...`: parse_assignment starts with parse_type
+    for c in sorted(project.subclasses(ctx.cls(IR, "LocalValue")), key=lambda c: c.name):
+        if c._module.rel != IR or c.name in NOT_IN_BLOCKS or c.name == "Parameter":
+            continue
+        st_ = project.find_method(c, "__str__")
+        if st_ is None:
+            continue
+        def leftmost(e):
+            while isinstance(e, ast.BinOp) and isinstance(e.op, ast.Add):
+                e = e.left
+            return e
+        rets = [leftmost(r.value) for r in walk_no_nested(st_) if isinstance(r, ast.Return) and r.value is not None]
+        ok = bool(rets) and all(isinstance(v, ast.JoinedStr) and v.values and isinstance(v.values[0], ast.FormattedValue) and norm(v.values[0].value) in ("self.ty", "ty") for v in rets)
+        ctx.ob("C15.R1", IR + ":%s.__str__" % c.name, "the printed form of ir.%s starts with its type (the reader parses `type name = ...`)" % c.name, ok, construct="printed-type-first:" + c.name)
     for cname in ("Variable", "ExternalFunction", "ExternalProcedure", "ExternalVariable", "Function", "Procedure", "Parameter", "Block", "BlobDataTyp"):
         ctx.ob("C15.R1", R + ":Reader", "ir.%s is constructed by the reader" % cname, cname in built, construct="class:" + cname)
 
